@@ -91,6 +91,7 @@ def run(case):
                 return "step %d: instance %d vanished %.6gs after its last access (timeout %.6gs)" % (step, ids.index(u), now() - last[u], tmo[u])
         return None
     gone = set()
+    held = []
     for step, op in enumerate(case):
         if op[0] == "create":
             u = start(client, timeout=op[1]); ids.append(u); last[u] = now()
@@ -100,6 +101,21 @@ def run(case):
             bad = expect(step)
         elif op[0] == "advance":
             FakeClock.advance(op[1]); bad = None
+        elif op[0] == "hold":
+            # a stream in progress (instance locked) that nobody reads any more: it times out like any other instance
+            live = [u for u in ids if u not in gone and not expired(u)]
+            bad = None
+            if live:
+                u = live[op[1] % len(live)]
+                r = client.post("/%s/stream-steps" % u, buffered=False)
+                it = iter(r.response)
+                try:
+                    next(it); next(it)
+                except StopIteration:
+                    pass
+                held.append((r, it))
+                last[u] = now()
+                bad = expect(step)
         elif op[0] == "metrics":
             r = client.get("/full-metrics" if op[1] else "/metrics")
             bad = expect(step)
@@ -117,21 +133,18 @@ def run(case):
             path = {"keep": "/%s/keep-alive", "step": "/%s/run-step", "results": "/%s/session-results"}[op[2]] % u
             was_expired = (u in gone) or expired(u)
             r = client.open(path, method="GET" if op[2] == "results" else "POST")
-            if was_expired:
-                # an access to an expired instance still counts as an event that sweeps: the instance must be refused
-                if 200 <= r.status_code < 300 and u in gone:
+            if u in gone:
+                # the id is no longer known: the request is refused and (not being an access to any instance) sweeps nothing
+                bad = None
+                if 200 <= r.status_code < 300:
                     bad = "step %d: timed-out instance %d answered %d" % (step, ids.index(u), r.status_code)
+            elif was_expired:
+                # expired but not swept yet: this access re-stamps it first, so it either survives or is refused
+                if u in app._instance_manager._instances:
+                    last[u] = now()
                 else:
-                    bad = None
-                if not bad and u not in gone and op[2] != "keep":
-                    pass
-                if u not in gone:
-                    # expired but never swept before: this access itself re-stamps it first (get_instance), so it may survive
-                    if u in app._instance_manager._instances:
-                        last[u] = now()
-                    else:
-                        gone.add(u)
-                bad = bad or expect(step, swept_except=None)
+                    gone.add(u)
+                bad = expect(step)
             else:
                 if not (200 <= r.status_code < 300):
                     return "step %d: live instance %d refused %s with %d" % (step, ids.index(u), op[2], r.status_code)
@@ -141,7 +154,7 @@ def run(case):
             return bad
     return None
 
-case = [('create', {'milliseconds': 2, 'seconds': 1}), ('create', {'seconds': 2}), ('create', {'milliseconds': 1}), ('create', {'hours': 3}), ('create', {'seconds': 2}), ('create', {'seconds': 1}), ('metrics', False), ('access', 4, 'results'), ('advance', 1800), ('advance', 1300000), ('create', {'seconds': 2}), ('access', 5, 'results'), ('create', {'seconds': 90}), ('advance', 604800), ('access', 5, 'results'), ('access', 4, 'results')]
+case = [('create', {'seconds': 1}), ('create', {'hours': 3}), ('create', {'days': 3}), ('advance', 604800), ('access', 0, 'keep'), ('hold', 3), ('hold', 5), ('create', {'seconds': 90}), ('metrics', False), ('advance', 30), ('hold', 0), ('advance', 3601), ('advance', 604800), ('access', 4, 'step')]
 bad = run(case)
 print("timeline:", case)
 print("FAIL: " + bad if bad else "PASS")
